@@ -82,6 +82,25 @@ Proof.
 Qed.
 Print Assumptions C03_sorted_is_cmp.
 
+(* the same on the raw values the instructions carry (no subtype): for every history whose
+   elements / keys are well-typed values of the key type, the set items and the map keys computed
+   with pytezos' == and < are strictly cmp-increasing and well-typed; a literal of well-typed
+   values passes check_constraints iff it is strictly cmp-increasing *)
+Theorem C03_collections_ordered_by_cmp : forall T, texts_ok T -> forall t,
+  (forall ops, Forall (set_op_typed t) ops ->
+      StronglySorted (raw_lt t) (set_run (py_eq T) (py_lt T) ops) /\
+      Forall (typed_val t) (set_run (py_eq T) (py_lt T) ops)) /\
+  (forall V (ops : list (map_op val V)), Forall (map_op_typed t) ops ->
+      StronglySorted (raw_lt t) (keys (map_run (py_eq T) (py_lt T) ops)) /\
+      Forall (typed_val t) (keys (map_run (py_eq T) (py_lt T) ops))) /\
+  (forall l, Forall (typed_val t) l ->
+      (check_constraints (py_eq T) (py_lt T) l = true <-> StronglySorted (raw_lt t) l)).
+Proof.
+  intros T TOK t. split; [apply raw_set_sorted, TOK|].
+  split; [intros V ops; apply raw_map_sorted, TOK | apply raw_literal, TOK].
+Qed.
+Print Assumptions C03_collections_ordered_by_cmp.
+
 (* ---- non-vacuity *)
 
 (* every comparable type except never (and pairs/ors built only from never) has a well-typed value *)
